@@ -17,8 +17,9 @@ func runFaultSuite(seed uint64, n int, out *Out, stats *Stats) {
 	for i := 0; i < n; i++ {
 		id := fmt.Sprintf("ft%d_%d", seed, i)
 		w := NewWorld(id, seed*2750159+uint64(i), "mixed", stats, out)
+		w.rec.Mon.AfterSync = true
 		r := w.r
-		w.set.Timeout = 40 * time.Millisecond
+		w.set.Timeout = 120 * time.Millisecond
 		hostLen := r.Pick(0, 1, 2, 3, 4, 6)
 		// bring host and helpers to the wanted length (helpers one or two blocks ahead)
 		if hostLen > 0 {
@@ -177,6 +178,9 @@ func runFaultSuite(seed uint64, n int, out *Out, stats *Stats) {
 		}
 		if leaked > 0 {
 			out.Violation("C13", id, fmt.Sprintf("goroutine-leak\t%d goroutines above the baseline after %d rounds (host of %d blocks)", leaked, rounds, hostLen))
+		}
+		for k := 0; k < w.rec.LateAnswers; k++ {
+			stats.Count("late answer of a well-behaved neighbor (arrived after the timeout: a failed fetch for the node and for the model)")
 		}
 		out.Case(w.rec.Emit())
 		for k, d := range w.rec.Digests {
